@@ -125,6 +125,28 @@ def c02_oracle(full, io, b):
                     out.append({"what": f"{cfg}({src!r}) = {res!r}: number of literal {ch!r} changed", "class": "delimiter-status", "n": n,
                                 "input": f"{cfg}({src!r})"})
                     break
+    # URL level: a modifier must not change the decoded bytes of the components it does not target
+    vv = View(full, io)
+    tgt = {"with_user": {"raw_user"}, "with_password": {"raw_password"}, "with_host": set(), "with_port": set(), "with_scheme": set(),
+           "with_fragment": {"raw_fragment"}, "with_query": {"raw_query_string", "query"}, "extend_query": {"raw_query_string", "query"},
+           "update_query": {"raw_query_string", "query"}, "with_path": {"raw_path", "raw_parts"}, "with_name": {"raw_path", "raw_parts"},
+           "truediv": {"raw_path", "raw_parts", "raw_query_string", "raw_fragment", "query"}}
+    for h, n in enumerate(vv.cr):
+        f = full[n].split("\t")
+        if f[0] != "mod" or f[3] not in tgt or not vv.alive(h):
+            continue
+        src = int(f[2])
+        if f[3] in ("with_path", "with_name") and (f[-2] != "T" or f[-1] != "T"):
+            continue
+        for comp in ("raw_user", "raw_password", "raw_path", "raw_query_string", "raw_fragment"):
+            if comp in tgt[f[3]]:
+                continue
+            a, c = vv.get(src, comp), vv.get(h, comp)
+            if a is None or c is None or a.startswith("!") or c.startswith("!") or "~" in (a, c):
+                continue
+            if pct_bytes(dec(a)) != pct_bytes(dec(c)):
+                out.append(fail(vv, h, comp, f"{f[3]} changed the decoded bytes of {comp}: {dec(a)!r} -> {dec(c)!r}", "modifier-changes-bytes", also=[vv.n_of(src, comp)]))
+                break
     # URL level: join must only splice encoded segments (every result segment decodes to a base or reference segment)
     v = View(full, io)
     for h, n in enumerate(v.cr):
@@ -166,6 +188,18 @@ def c02_streams(rng, tier, budget):
             j = st.join(hb, hr)
             st.obs_all(j, C02_OBS)
     yield "join-escapes", st
+    st3 = Stream()
+    tricky = ["%FF", "%C3%28", "%E2%82", "%80x", "p%3aw", "a%2Fb", "%25", "é", "a+b", "%zz"]
+    for pw in tricky:
+        for us in ("u", "u%FF", "é"):
+            h = st3.new("http://%s:%s@h:81/a%%2Fb/%s?k=%s&%s=v#%s" % (us, pw, pw, pw, pw, pw))
+            st3.obs_all(h, C02_OBS)
+            for nm, args in (("with_user", [enc("bob")]), ("with_password", [enc("x y")]), ("with_host", [enc("h2")]), ("with_port", ["82"]),
+                             ("with_scheme", [enc("https")]), ("with_fragment", [enc("f")]), ("with_query", ["S" + enc("a=1")]),
+                             ("with_path", [enc("/z"), "F", "T", "T"]), ("with_name", [enc("n"), "T", "T"]), ("truediv", [enc("c")]),
+                             ("extend_query", ["S" + enc("z=1")]), ("update_query", ["P" + enc("zz") + "=s" + enc("1")])):
+                st3.obs_all(st3.mod(h, nm, *args), C02_OBS)
+    yield "modifier-preserves-bytes", st3
     n = int((200 if tier == "quick" else 3000) * budget)
     yield "urls", general_stream(rng, n, C02_OBS, enc_frac=0.0)
 
@@ -243,6 +277,9 @@ def classify_c03(v, h, text):
         return "malformed-brackets"
     if not valid_host(rh):
         return "skip"
+    val0 = v.get(h, "val")
+    if rh == "" and val0 and val0.startswith("L5:") and val0[3:].split(",")[1] == "":
+        return "authority-normalises-to-empty"
     if rh is None or rh == "":
         first = path.split("/")[0]
         if not scheme and ":" in first:
@@ -504,7 +541,8 @@ def c06_oracle(full, io, b):
         if not v.alive(h):
             continue
         for dn, rn, cfg in (("user", "raw_user", "UNQUOTER"), ("password", "raw_password", "UNQUOTER"), ("fragment", "raw_fragment", "UNQUOTER"),
-                            ("name", "raw_name", "UNQUOTER"), ("suffix", "raw_suffix", "UNQUOTER"), ("query_string", "raw_query_string", "QS_UNQUOTER")):
+                            ("name", "raw_name", "UNQUOTER"), ("suffix", "raw_suffix", "UNQUOTER"), ("query_string", "raw_query_string", "QS_UNQUOTER"),
+                            ("path", "raw_path", "PATH_UNQUOTER"), ("path_safe", "raw_path", "PATH_SAFE_UNQUOTER")):
             a, r = v.get(h, dn), v.get(h, rn)
             if a is None or r is None or a.startswith("!") or r.startswith("!"):
                 continue
@@ -518,7 +556,7 @@ def c06_oracle(full, io, b):
                                 also=[v.n_of(h, rn)]))
         # query (multidict) view: valid UTF-8 escapes only (stdlib errors='replace' otherwise: listed known finding)
         qv, rq = v.get(h, "query"), v.get(h, "raw_query_string")
-        if qv and rq and not qv.startswith("!") and not rq.startswith("!"):
+        if qv is not None and rq is not None and not qv.startswith("!") and not rq.startswith("!"):
             raw = dec(rq)
             pairs = []
             body = qv.partition(":")[2]
@@ -544,7 +582,7 @@ def c06_oracle(full, io, b):
             t = dec(f[4])
             acc = {"with_user": "user", "with_password": "password", "with_fragment": "fragment"}[f[3]]
             a = v.get(h, acc)
-            if a and not a.startswith("!") and no_surr(t):
+            if a is not None and not a.startswith("!") and no_surr(t):
                 got = None if a == "~" else dec(a)
                 exp = t if not (f[3] == "with_user" and t == "") else None
                 if f[3] == "with_user" and t == "":
@@ -554,7 +592,7 @@ def c06_oracle(full, io, b):
         if f[0] == "mod" and f[3] == "with_name":
             t = dec(f[4])
             a = v.get(h, "name")
-            if a and not a.startswith("!") and no_surr(t) and dec(a) != t:
+            if a is not None and not a.startswith("!") and no_surr(t) and dec(a) != t:
                 out.append(fail(v, h, "name", f"with_name({t!r}) reads back as name = {dec(a)!r}", "readback"))
     return out
 
